@@ -297,7 +297,7 @@ func randAdvance(r *rand.Rand) uint64 {
 func (s *sys) gen(r *rand.Rand, mode int) []uint64 {
 	if mode == 1 {
 		if s.callsSince > 0 && s.lastRet > 0 && r.IntN(8) > 0 {
-			d := (s.lastRet + 999999) / 1000000
+			d := min((s.lastRet+999999)/1000000, 30*60*1000) // at most 30 minutes: huge sleeps overflow the bubble's timers
 			s.lastRet = 0
 			return []uint64{3, d}
 		}
